@@ -197,7 +197,8 @@ def obligations(tier, fns, wall):
     import cubed.runtime.executors.local as crl
 
     o = []
-    combos = [("threads", "diamond", 0, 30, 40, 10, 0), ("processes", "chain-unequal", 0, 30, 40, 10, 1), ("threads", "multi-output", 1, 30, 40, 10, 0)]
+    # few order choices (n_p): the interleavings are barrier[...]'s subject; here every option combination meets a handful of schedules
+    combos = [("threads", "diamond", 0, 30, 40, 6, 0), ("processes", "chain-unequal", 0, 30, 40, 6, 1), ("threads", "multi-output", 1, 30, 40, 6, 0)]
     if tier != "quick":
         combos = [(m, dn, opt, 40, 60, 12, 2) for m in ("threads", "processes") for dn in ("chain-unequal", "diamond", "independent", "multi-output", "rechunk-then-add") for opt in (0, 1)]
     for mode, dn, opt, n_o, n_d, n_p, mr in combos:
@@ -213,7 +214,7 @@ def obligations(tier, fns, wall):
                      outside="the worker pool itself (ThreadPoolExecutor / ProcessPoolExecutor -> StubPool: submit() runs the submitted callable once on a recording stage function and hands back a scheduler-stub future); memray/timing decorators run for real",
                      stubs=["StubPool", "sched.ShimAsyncio", "sched.ShimTime", "sched.ShimStream"],
                      witness_rule=lambda m: m.get("kfail", 0) >= 1 or m.get("batch", 0) >= 1))
-    o.append(Obl("twin:executor-wiring[threads,diamond]", make("threads", "diamond", 0, 30, 40, 10, 0, twin=True),
-                 c07.vars_(30, 40, 10) + [("par", 0, 2), ("batch", 0, 2), ("retries", 0, 1), ("kfail", 0, 1)], setup=c07.setup,
+    o.append(Obl("twin:executor-wiring[threads,diamond]", make("threads", "diamond", 0, 30, 40, 6, 0, twin=True),
+                 c07.vars_(30, 40, 6) + [("par", 0, 2), ("batch", 0, 2), ("retries", 0, 1), ("kfail", 0, 1)], setup=c07.setup,
                  twin_of="executor-wiring[threads,diamond,optimize=0]", wall_s=wall))
     return o
